@@ -10,17 +10,6 @@ import Driver.Base
 open Lean (Json)
 open PM PM.Codec
 
-/-- evaluation helper of op `fitEmit` (not a model of library code): does `p` hold in the state
-    `Fitter.__init__` builds and after every iteration of the loop of `fit`?  `none` = the run raises or
-    runs out of fuel. -/
-def fitLoopAll (S : Schema) (p : FitState → Bool) : Nat → FitState → Option Bool
-  | 0, st => if st.unplaced.size == 0 then some (p st) else none
-  | fuel + 1, st =>
-    if st.unplaced.size == 0 then some (p st)
-    else match fitStep S st with
-      | .ok st' => (fitLoopAll S p fuel st').map (fun b => b && p st)
-      | .error _ => none
-
 def handleRange (st : St) (op : String) (j : Json) : Option (D (St × Json)) :=
   match op with
   | "fitsTrivially" => some do
@@ -162,6 +151,7 @@ def handleRange (st : St) (op : String) (j : Json) : Option (D (St × Json)) :=
       ("rel", Json.mkObj [("inStep", loop), ("cls", Json.str cls),
         ("uStart", trace (fun st => decide (st.unplaced.openStart ≤ spineL st.unplaced.content))),
         ("uEnd", trace (fun st => decide (st.unplaced.openEnd ≤ spineR st.unplaced.content))),
+        ("uWfRun", Json.bool (unplacedWfRun S d f t sl)), ("labels", Json.bool S.labelsOKB),
         ("hyp", Json.bool (PM.FromDom.detB S && S.fillersOKB && S.wrapOKB && S.checkNode d && S.nodeAttrsOK d))])]))
   | "fillBeforeO" => some do
     let S ← getSchema st j
